@@ -391,10 +391,13 @@ static void case_c07b(const drvargs_t *a,long id){
       if(!posbad && !res_nviol()) res_bucket("begin-trim|linear|links%d|bt%d",nl,bt);
       /* seeks: position p of link l is sample p-start[l]+trim[l] of the untrimmed decode */
       int64_t T=start[nl];
+      /* a seek decodes from the page before the one that holds the target; when that is the link's first audio page the partly applied trim shows again, so the
+         region "near the trimmed start" reaches to the end of the link's second audio page (plus one long block of lapping) */
+      long nearlim=6000; { pageinfo_t *pg=NULL; int np=page_scan(phys.p,phys.n,&pg); int seen=0; for(int i=0;i<np;i++) if(pg[i].serial==cd.serial[bt] && pg[i].granule>0){ if(++seen==2){ nearlim=(long)pg[i].granule+8192; break; } } if(seen<2) nearlim=len[bt]+1; free(pg); }
       for(int q=0;q<(a->thorough?60:25);q++){
         int64_t p= q<6? start[bt]+(int64_t)rng_range(&r,0,VH_MIN(len[bt]-1,1500)) : (int64_t)rng_range(&r,0,(long)T-1);
         int l=0; while(l+1<nl && p>=start[l+1]) l++;
-        int rs=ov_pcm_seek(&vf,p); res_eval(1); const char *where=(l==bt && p-start[l]<6000)?"near-the-trimmed-start":"elsewhere";
+        int rs=ov_pcm_seek(&vf,p); res_eval(1); const char *where=(l==bt && p-start[l]<nearlim)?"near-the-trimmed-start":"elsewhere";
         char key[96];
         if(rs){ snprintf(key,sizeof key,"begin-trimmed-link:seek-fails-%s",where); res_viol("C08",key,"ov_pcm_seek(%lld) = %d: %s",(long long)p,rs,desc); continue; }
         if(ov_pcm_tell(&vf)!=p){ snprintf(key,sizeof key,"begin-trimmed-link:seek-position-%s",where); res_viol("C08",key,"ov_pcm_seek(%lld) left tell %lld: %s",(long long)p,(long long)ov_pcm_tell(&vf),desc); continue; }
